@@ -314,7 +314,7 @@ def resume_part(ck):
 
     confs = [
         dict(clustering=False, random_state=5), dict(clustering=True), dict(clustering=True, cluster_every=3, random_state=0), dict(evaluation="blobs"),
-        dict(pool="perm"), dict(pool=1, sample="rwm"), dict(evaluation="vector", resample="syst", random_state=2 ** 32 - 1), dict(volume_variation=0.5, clustering=False),
+        dict(pool="perm"), dict(pool="executor", clustering=False), dict(pool=1, sample="rwm"), dict(evaluation="vector", resample="syst", random_state=2 ** 32 - 1), dict(volume_variation=0.5, clustering=False),
         dict(sample="rwm", n_dim=3, n_particles=9, clustering=False),            # odd number of normals per sweep: a cached Gaussian in the stream
         dict(clustering=True, target="narrow", n_particles=32),                  # several cluster labels alive at the checkpoints
     ]
